@@ -238,18 +238,24 @@ pub fn multi_project(c: &MultiCase) -> Project {
     lib.push_str(&format!("{}lda #libk1\n", il));
     lib.push_str("libl0: rts\n");
     lib.push_str(&format!("{}jsr libl0\n{}.byte libk1, <libl0\n", il, il));
+    if c.pad_lib % 3 == 2 {
+        // (no newline at the end of the file)
+        lib.pop();
+    }
     let mut main = String::new();
     let q = if c.import_kind % 4 == 1 { "lns." } else { "" };
+    // (kind 3: the library's symbols are imported under other names)
+    let (k, l) = if c.import_kind % 4 == 3 { ("mk1", "ml0") } else { ("libk1", "libl0") };
     match c.import_kind % 4 {
         0 => main.push_str(".import * from \"lib.asm\"\n"),
         1 => main.push_str(".import * as lns from \"lib.asm\"\n"),
         2 => main.push_str(".import libk1, libl0 from \"lib.asm\"\n"),
-        _ => main.push_str(".import libk1, libl0 from \"lib.asm\"\n"),
+        _ => main.push_str(".import libk1 as mk1, libl0 as ml0 from \"lib.asm\"\n"),
     }
     main.push_str(&"\n".repeat(c.pad_main as usize % 3));
-    main.push_str(&format!("{}lda #{}libk1\n", im, q));
-    main.push_str(&format!("mainl: {{\n{}    jsr {}libl0\n{}    .word {}libl0 + {}libk1\n}}\n", im, q, im, q, q));
-    main.push_str(&format!("{}jsr {}libl0\n", im, q));
+    main.push_str(&format!("{}lda #{}{}\n", im, q, k));
+    main.push_str(&format!("mainl: {{\n{}    jsr {}{}\n{}    .word {}{} + {}{}\n}}\n", im, q, l, im, q, l, q, k));
+    main.push_str(&format!("{}jsr {}{}\n", im, q, l));
     let mut files = std::collections::BTreeMap::new();
     files.insert("main.asm".to_string(), main);
     files.insert("lib.asm".to_string(), lib);
@@ -294,7 +300,12 @@ pub fn prop_multi(c: &MultiCase, log: &mut CaseLog) -> Verdict {
         Some((_, msgs)) if msgs.is_empty() => {}
         _ => return Verdict::fail("harness-project-does-not-build", format!("{:?}\n{:?}", proj.files, before)),
     }
-    let old_name = if c.symbol % 2 == 0 { "libk1" } else { "libl0" };
+    let old_name = match (c.symbol % 4, c.import_kind % 4) {
+        (2, 3) => "mk1",
+        (3, 3) => "ml0",
+        (s, _) if s % 2 == 0 => "libk1",
+        _ => "libl0",
+    };
     let new_name = "zzrenamed9";
     // every occurrence, per file
     let mut occ: Vec<(String, (u64, u64, u64))> = vec![];
@@ -351,7 +362,10 @@ pub fn prop_multi(c: &MultiCase, log: &mut CaseLog) -> Verdict {
             }
         }
         let want: BTreeSet<(String, (u64, u64, u64))> = occ.iter().cloned().collect();
-        if got != want {
+        // (a rename requested at an alias is only held to the build comparison below: whether the alias or the symbol
+        // behind it is renamed is not specified)
+        let at_alias = matches!(old_name, "mk1" | "ml0");
+        if got != want && !at_alias {
             let missing: Vec<_> = want.difference(&got).collect();
             let extra: Vec<_> = got.difference(&want).collect();
             let k = if !missing.is_empty() { "occurrence-not-renamed|multi-file" } else { "edit-outside-the-symbol's-occurrences|multi-file" };
@@ -385,7 +399,7 @@ pub fn prop_multi(c: &MultiCase, log: &mut CaseLog) -> Verdict {
 }
 
 pub fn multi_strategy() -> impl Strategy<Value = MultiCase> {
-    (0u8..3, 0u8..3, 0u8..3, 0u8..4, 0u8..4, 0u8..2, any::<u32>()).prop_map(|(import_kind, pad_main, pad_lib, indent_main, indent_lib, symbol, sel)| MultiCase { import_kind, pad_main, pad_lib, indent_main, indent_lib, symbol, sel })
+    (0u8..4, 0u8..3, 0u8..3, 0u8..4, 0u8..4, 0u8..4, any::<u32>()).prop_map(|(import_kind, pad_main, pad_lib, indent_main, indent_lib, symbol, sel)| MultiCase { import_kind, pad_main, pad_lib, indent_main, indent_lib, symbol, sel })
 }
 
 pub fn multi_to_json(c: &MultiCase) -> Value {
